@@ -695,7 +695,7 @@ func Execute(t *testing.T, plan *Plan, oracle func(x *Exec, so *StepObs), final 
 				for _, q := range so.Results[0].Reqs {
 					if q.SeqOut != 0 && q.Note != "abandoned by client" {
 						n++
-						kinds = append(kinds, q.Verb)
+						kinds = append(kinds, q.Verb+" "+q.Path)
 					}
 				}
 			}
